@@ -241,15 +241,19 @@ Definition c14_sweep_check : bool :=
            "auction.SurplusActivator"; "auction.DebtActivator"].
 
 (* price: every price call site a handler can reach, and every link of the call chain to it,
-   propagates the error.  Two handlers are excluded: the translator shows sites where the error is
-   assigned to _ (cross-pool branch of MsgLiquidateBorrow, UpdateLockedBorrows, CreteNewBorrow). *)
+   propagates the error.  A raw read of the oracle record that discards the found flag
+   (`x, _ := k.market.GetTwa(..)`) counts as a price call site whose error is ignored.  Three handlers
+   are excluded: the translator shows sites where the error is assigned to _ (cross-pool branch of
+   MsgLiquidateBorrow, UpdateLockedBorrows, CreteNewBorrow; the raw read in PlaceDutchAuctionBid). *)
 Definition price_modules : list string :=
   ["vault"; "locker"; "lend"; "liquidation"; "liquidationsV2"; "auction"; "auctionsV2"].
 Definition price_unverified : list (string * string) :=
   [("liquidation.MsgLiquidateBorrow",
     "cross-pool branches and UpdateLockedBorrows assign the price error to _ (msg_server.go:163,177; liquidate_borrow.go)");
    ("auction.MsgPlaceDutchLendBid",
-    "the close path reaches lend.CreteNewBorrow / liquidation.UpdateLockedBorrows which assign the price error to _")].
+    "the close path reaches lend.CreteNewBorrow / liquidation.UpdateLockedBorrows which assign the price error to _");
+   ("auctionsV2.MsgPlaceMarketBid",
+    "KNOWN FINDING C14-F1 (reproduced): PlaceDutchAuctionBid reads the debt asset's record with `debtToken, _ := GetTwa(..)`, discarding the found flag and never looking at IsPriceActive (bid.go:32)")].
 Definition price_scope : list handler :=
   filter (fun h => mem (h_module h) price_modules && negb (mem (h_name h) (map fst price_unverified))) handlers.
 Definition price_fail_closed (h : handler) : bool := price_all_checked h && no_unchecked_price (h_items h).
